@@ -64,8 +64,65 @@ def check_C08(tier, seed):
         results = conccheck.run_family(family, tier)
         viol, r, n_out, n_states = conccheck.judge(results, inst_kw)
         conccheck.report(v, results, viol, {"C08"}, r, n_out, n_states)
-    v.coverage["checker_cmd"] = "harness.conc explorer ; tlc TraceLin (I_NoDeadlock, I_NothingLocked)"
+    from . import crashfault
+    fres = crashfault.run(tier, ("fault",))
+    fviol, fr, nc, nf = crashfault.judge(fres)
+    conc_cov = dict(v.coverage)
+    crashfault.report(v, fres, fviol, {"C08"}, nc, nf)
+    v.coverage.update({k: conc_cov[k] for k in ("scenarios", "evaluations", "states", "transitions",
+                                                "traces_validated_against_impl", "exhaustive",
+                                                "distinct_nontrivial", "per_scenario", "samples")
+                       if k in conc_cov})
+    v.coverage["fault_injections_checked_for_lock_residue"] = nf
+    v.coverage["checker_cmd"] = "harness.conc explorer ; tlc TraceLin (I_NoDeadlock, I_NothingLocked) ; harness.crashfault ; tlc TraceFault (I_C08_FaultUnlocks)"
     v.assumptions.append("deadlock = no runnable managed thread while some call unfinished; "
                          "after every distinct terminal outcome follow-up calls on every identifier "
                          "involved must complete without blocking")
+    return v.finish()
+
+
+def _crashfault(prop, tier, seed, what, props, level="fault_enumeration"):
+    from . import crashfault
+    v = Verdict(prop, tier, seed, level)
+    results = crashfault.run(tier, what)
+    viol, r, nc, nf = crashfault.judge(results)
+    crashfault.report(v, results, viol, props, nc, nf)
+    v.coverage["checker_cmd"] = "harness.crashfault enumerator (real code) ; tlc TraceFault"
+    v.assumptions += ["crash = process death (fork + os._exit before the k-th operation); page-cache / power loss not modelled",
+                      "faults are OSErrors raised at Python's system-call boundary; stat/listdir/read are not fault sites",
+                      "one crash or one fault per execution"]
+    return v
+
+
+def check_C10(tier, seed):
+    return _crashfault("C10", tier, seed, ("crash",), {"C10"}).finish()
+
+
+def check_C13(tier, seed):
+    return _crashfault("C13", tier, seed, ("fault",), {"C13"}).finish()
+
+
+def check_C09(tier, seed):
+    """Permanent files never observable half-written: (a) every abstract state between two
+    file-system operations of every interleaving explored for C07/C12 (a concurrent reader
+    sees exactly these states), (b) the left-over directory after process death before each
+    operation, (c) the state after each injected fault."""
+    from . import conccheck, crashfault
+    v = Verdict("C09", tier, seed, "model_checking")
+    for family, inst_kw in (("C07", conccheck.OBJ_INST), ("C12", conccheck.META_INST)):
+        results = conccheck.run_family(family, tier)
+        viol, r, n_out, n_states = conccheck.judge(results, inst_kw)
+        conccheck.report(v, results, viol, {"C09"}, r, n_out, n_states)
+    conc_cov = dict(v.coverage)
+    cres = crashfault.run(tier, ("crash", "fault"))
+    cviol, cr, nc, nf = crashfault.judge(cres)
+    crashfault.report(v, cres, cviol, {"C09"}, nc, nf)
+    for k in ("states", "transitions", "traces_validated_against_impl",
+              "distinct_intermediate_abs_states", "exhaustive"):
+        if k in conc_cov:
+            v.coverage[k] = conc_cov[k]
+    v.coverage["scenarios"] = conc_cov.get("scenarios", 0) + len(cres)
+    v.coverage["checker_cmd"] = "tlc TraceLin (I_C09_Complete on every intermediate state) ; tlc TraceFault (I_C09_*)"
+    v.assumptions.append("file proxies flush after every write, so a file written in place is "
+                         "observable half-written between two of its write operations")
     return v.finish()
